@@ -68,8 +68,9 @@ static int nseg;
 
 static void emit_seg(const char *text)
 {
-	if (++nseg > 20000) {
-		/* a run-away loop in the library: cut the trace */
+	if (++nseg > 20000 + 8 * (vk_wait_limit > 1000 ? vk_wait_limit : 0)) {
+		/* a run-away loop in the library: cut the trace (scenarios that ask for more than 1000 waits get room
+		   for eight segments per wait on top) */
 		fputs(" | OVERFLOW", stdout);
 		fflush(stdout);
 		_exit(3);
